@@ -107,7 +107,21 @@ type StringLiteralExpression struct {
 
 func (self StringLiteralExpression) Kind() ExpressionKind { return StringLiteralExpressionKind }
 func (self StringLiteralExpression) Span() errors.Span    { return self.Range }
-func (self StringLiteralExpression) String() string       { return fmt.Sprintf("\"%s\"", self.Value) }
+func (self StringLiteralExpression) String() string {
+	return fmt.Sprintf("\"%s\"", escapeString(self.Value))
+}
+
+// Escapes the contents of a string so that the lexer reads the original value again.
+var stringEscaper = strings.NewReplacer(
+	"\\", "\\\\",
+	"\"", "\\\"",
+	"\n", "\\n",
+	"\r", "\\r",
+	"\t", "\\t",
+	"\b", "\\b",
+)
+
+func escapeString(input string) string { return stringEscaper.Replace(input) }
 
 //
 // Ident expression
